@@ -395,8 +395,6 @@ def replay(ck, path):
     for l, o in zip(lines, out):
         print(l, "->", o)
     ck.evaluations = len(lines)
-    ck.nontriv(1)
-    ck.nontriv(2)
 
 
 def prebuild():
